@@ -51,6 +51,9 @@ impl OpaqueTripleSet { pub uninterp spec fn view(&self) -> Set<Triple>; }
 // commit_tx is specified relative to that sequence)
 impl OpaqueTxBuffer { pub uninterp spec fn pending(&self, tx: TxId) -> Seq<PendingOp>; }      // what the transaction buffered, in issue order
 #[verifier::external_body] fn tx_take(buf: &mut OpaqueTxBuffer, tx_id: TxId) -> (r: Vec<PendingOp>) ensures r@ == old(buf).pending(tx_id) { unimplemented!() }
+// `buffer.buffers.remove(&tx_id).map_or(0, |ops| ops.len())` (rollback_tx): the buffered operations are dropped, their number is returned, no other transaction's buffer changes (ASSUMED: HashMap::remove on the opaque buffer)
+#[verifier::external_body] fn tx_discard(buf: &mut OpaqueTxBuffer, tx_id: TxId) -> (r: usize)
+    ensures r == old(buf).pending(tx_id).len(), final(buf).pending(tx_id) == Seq::<PendingOp>::empty(), forall|o: TxId| o != tx_id ==> #[trigger] final(buf).pending(o) == old(buf).pending(o) { unimplemented!() }
 // R37 helper (verified): all of a, then all of b
 fn vec_concat<T>(a: Vec<T>, b: Vec<T>) -> (r: Vec<T>) ensures r@ == a@ + b@ { let mut a = a; let mut b = b; a.append(&mut b); a }
 #[verifier::external_body] fn tx_buffer_new() -> (r: OpaqueTxBuffer) { unimplemented!() }
@@ -391,6 +394,8 @@ impl RdfStore {
     @@RdfStore::clear@@
 
     @@RdfStore::commit_tx@@
+
+    @@RdfStore::rollback_tx@@
 }
 
 } // verus!
@@ -614,7 +619,15 @@ r__''' % (fld, name))
     L.body_end('proof { let s = ops0.take(it.index@ + 1); assert(s.drop_last() =~= ops0.take(it.index@ as int)); assert(s.last() == ops0[it.index@ as int]); }')
     L.after('proof { assert(ops0.take(ops0.len() as int) =~= ops0); }')
 
-    u.not_covered += ['RdfStore::{new, len, is_empty, triples, subjects/predicates/objects, stats, transaction buffer (insert_in_tx, remove_in_tx, rollback_tx, find_with_pending)}', 'the primary FxHashSet<Arc<Triple>> itself (abstract view + assumed std contracts)',
+    # ---- rollback_tx (C02 for the RDF store): discards exactly the transaction's buffered operations, touches nothing of the store ----
+    u.trust('external_body tx_discard', 'E3/E1: `buffers.remove(&tx_id).map_or(0, |ops| ops.len())` on the opaque buffer')
+    f = u.method(SRC, 'RdfStore', 'rollback_tx').D1().ret('r')
+    f.sub('E3', 'pub fn rollback_tx(&self,', 'pub fn rollback_tx(&mut self,')
+    f.resub('E3', r'let mut buffer = self\.tx_buffer\.write\(\);\s*buffer\.buffers\.remove\(&tx_id\)\.map_or\(0, \|ops\| ops\.len\(\)\)', 'tx_discard(&mut self.tx_buffer, tx_id)')
+    f.ensures('nothing_of_the_transaction_is_applied', 'final(self).triples.view() == old(self).triples.view() && final(self).subject_index@ == old(self).subject_index@'
+              ' && final(self).predicate_index@ == old(self).predicate_index@ && final(self).object_index == old(self).object_index', ['C02', 'C13'])
+    f.ensures('buffer_discarded', 'r == old(self).tx_buffer.pending(tx_id).len() && final(self).tx_buffer.pending(tx_id) == Seq::<PendingOp>::empty()', ['C02', 'C13'])
+    u.not_covered += ['RdfStore::{new, len, is_empty, triples, subjects/predicates/objects, stats, transaction buffer (insert_in_tx, remove_in_tx, find_with_pending)}', 'the primary FxHashSet<Arc<Triple>> itself (abstract view + assumed std contracts)',
                       'SPARQL parser / translator / planner_rdf / operators']
     u.assume('E3: locks dropped - one call is one critical section, sequentially')
     return u
